@@ -8,6 +8,14 @@ CHECKS = {
          'Generated-input exploration: every conversion law is checked on tens of thousands (quick) to >10^6 (thorough) generated names and pairs, plus a complete grid of byte values; no proof of absence.',
          'Trusts the independent encoder/renderer in pbt/refs and pbt/checks/c09_names.py (written from the NDN TLV/URI rules as documented by the library).', '6/C09'),
 }
+CHECKS.update({
+ 'C01': ('Hypothesis @given over Interest/Data cases with steered total sizes + exhaustive (R,r) x length-boundary grid; oracle: byte-exact agreement with an independently assembled packet, independent signature verification, strict TLV walk, parse_* == inputs',
+         'Generated-input exploration against an independent encoder (not a round trip only): a mirrored encoder/decoder error is still caught. Thousands (quick) to >10^5 (thorough) packets plus the complete shrink/boundary grid.',
+         'Trusts pbt/pkt.py (reference assembly + strict reader written from the NDN packet format 0.3 spec), pycryptodome, committed test keys; ECDSA nonce pinned via a deterministic DRBG.', '6/C01'),
+ 'C02': ('Hypothesis @given packets x drawn mutation lists (byte-level and TLV-structural) + exhaustive offset x value substitution on small packets; oracles: signed-portion calculator, library verifier must reject any parsing mutant whose strict signed portion or signature value differs, params digest iff',
+         'Generated-input exploration with a two-sided oracle for the parameters digest and a soundness oracle for tampering; thorough tier enumerates every offset of ten small packets.',
+         'Trusts the strict reader in pbt/pkt.py as the definition of the signed portion, and pycryptodome for verification.', '6/C02'),
+})
 NOT_YET = {}
 def main():
     props = [json.loads(l) for l in open(os.path.join(ROOT, 'properties.jsonl'))]
